@@ -264,6 +264,26 @@ SEEDS.update({
            "a foreign file named exactly .wal-<next number>.tmp present during a roll-over is destroyed; the library creates a name that is not wal-<20 digits>"),
 })
 
+# seventh (mini) round: eight sub-agents (C03 C07 C09 C10 C12 C13 C14 C16), 25-minute budget, one change each
+SEEDS.update({
+ "C03-10": ("the roll-over flushes + fsyncs the file it leaves only when the write buffer is non-empty",
+            "power-loss model; a roll-over at the instant the BufWriter is empty: the previous record ended on the last byte of the file, or a whole-block frame (written past the buffer) is the last frame of the file"),
+ "C07-10": ("write_record decides is_last_frame with < instead of <= and leaves the loop on an empty remainder (two edits)",
+            "an entry whose remaining part is exactly max_writable_frame_length(): it ends exactly at a block end, gets no closing frame and vanishes at read-back"),
+ "C09-10": ("the replay of DeleteQueue drops the queue only if its replayed next position equals the position stored in the entry",
+            "damage on the frame of the queue's last position-advancing entry before its deletion: the undamaged DeleteQueue entry is ignored too and the deleted queue is back"),
+ "C10-10": ("FrameReader skips to the next block only at cursor == BLOCK, the eager skip sits after the CRC check (two sites)",
+            "a frame ending 1..6 bytes before a block end whose CRC fails (payload / checksum byte damaged, len and type intact): slice index panic in open"),
+ "C12-10": ("'nothing written here yet' tested on the frame type byte only",
+            "type byte of a batch's frame damaged to exactly 0, restart (batch gone as a whole), same-size batch crashing right after its First frame, restart: stale frames of the old batch complete the new head"),
+ "C13-10": ("create_queue rejected with AlreadyExists flushes and fsyncs the writer first",
+            "non-default policy, accepted appends still buffered, then create_queue on an existing name: the WAL file bytes change during the rejected call"),
+ "C14-10": ("RollingWriter remembers a clone of the FileNumber of the last persist (tracing): the Arc clone pins that file",
+            "DoNothing / OnDelay not due, a persist on the old file (create_queue), roll-over by plain appends, truncate freeing the old file: the file stays (disk_used_bytes differs between policies)"),
+ "C16-10": ("truncate_head skips the rebase + drain when no payload byte is retained",
+            "a partial truncation after which every retained record has an EMPTY payload: the evicted payload stays counted"),
+})
+
 def parse_matrix(name):
     path = f"/tmp/seedmatrix_final/{name}.log"
     if not os.path.exists(path):
